@@ -42,7 +42,7 @@ def run(ctx, entry_tu=ENTRY_TU, scope_label='production'):
     chk.rule('E8', 'no unbounded recursion between the interposer and the real call: every call-graph cycle is a listed '
                    'bounded recursion or cut by a re-entrancy guard', floor=1)
     chk.rule('E9', 'the stack needed between the interposer and the real call does not depend on configuration or input '
-                   '(no alloca, no run-time sized array)', floor=20)
+                   '(no alloca, no run-time sized array)', floor=10)
     chk.rule('E7', "the caller's path/argv/envp are only read: no store through them, never passed as non-const, environment never mutated", floor=3)
     chk.explanation = (
         'All paths of the two interposers and everything reachable from them through the resolved call graph '
